@@ -780,3 +780,34 @@ func maxAcceptedDepth(w *World, p *packages.Package) (int64, string) {
 	}
 	return okLen, ""
 }
+
+// JSON.6: the decoder's and scanner's helper functions are ports of
+// encoding/json; compared statement by statement like the formatter's
+// (the state functions themselves are decided by JSON.1).
+var jsonPorts = map[string]struct {
+	tengo, ref []string
+	why        string
+}{
+	"getu4":                  {},
+	"unquote":                {},
+	"checkValid":             {},
+	"quoteChar":              {},
+	"scanner.reset":          {},
+	"scanner.eof":            {},
+	"scanner.pushParseState": {},
+	"scanner.popParseState":  {},
+	"decodeState.scanNext":   {},
+	"decodeState.readIndex":  {},
+	"unquoteBytes": {[]string{"utf16.DecodeRune(rr, rr1)", "dec != unicode.ReplacementChar"}, []string{"DecodeRune"},
+		"the surrogate-pair test is written as a separate statement"},
+}
+
+func ruleJSON6(c *Ctx) {
+	w := c.W
+	ref, err := w.loadRef("encoding/json")
+	if err != nil {
+		c.anchor("reference package encoding/json: " + err.Error())
+		return
+	}
+	checkNearPorts(c, w.JSON, ref, "encoding/json", jsonPorts, nil, func(n string) string { return n }, nil, nil)
+}
